@@ -354,7 +354,7 @@ theorem montyModpow_eq_core (P : Params) (x y : List Nat) (m0 : Nat) (mt : List 
             | error e => rfl
             | ok rest =>
               simp only []
-              generalize digitLoop _ _ _ _ _ _ _ _ = r3
+              generalize digitLoop _ _ _ _ _ _ _ _ _ = r3
               cases r3 with
               | error e => rfl
               | ok z => rfl
@@ -362,7 +362,8 @@ theorem montyModpow_eq_core (P : Params) (x y : List Nat) (m0 : Nat) (mt : List 
 /-- the Montgomery core (table, windows, conversion out) on prepared operands: `x2 ≡ X`, `rr ≡ R²`,
     both of `n` proper digits.  Same argument as the middle of `montyModpow_spec`, but exposing the
     digit vector `zz` so that the digit-level final reduction can be applied to it. -/
-theorem montyCore_spec (P : Params) (hP : P.window = 4) {m : List Nat} {k : Nat} (hctx : MCtx m k)
+theorem montyCore_spec (P : Params) (hw0 : 0 < P.window) (hwd : P.window ∣ 64)
+    (hsq : P.squarings = P.window) {m : List Nat} {k : Nat} (hctx : MCtx m k)
     (x2 rr y : List Nat) (X : Nat)
     (lx2 : x2.length = m.length) (dx2 : DigitsOk x2) (cx : val x2 ≡ X [MOD val m])
     (lrr : rr.length = m.length) (drr : DigitsOk rr)
@@ -370,7 +371,8 @@ theorem montyCore_spec (P : Params) (hP : P.window = 4) {m : List Nat} {k : Nat}
     ∃ zz, montyCore P x2 rr m k m.length y = .ok zz ∧ zz.length = m.length ∧ DigitsOk zz ∧
       val zz ≡ X ^ val y [MOD val m] := by
   unfold montyCore
-  simp only [hP]
+  simp only [hsq]
+  generalize P.window = w at *
   have hcop := mctx_coprime hctx
   have hnpos : 0 < m.length := by
     obtain ⟨m0, mt, rfl, _⟩ := hctx; simp
@@ -378,8 +380,8 @@ theorem montyCore_spec (P : Params) (hP : P.window = 4) {m : List Nat} {k : Nat}
   have done : DigitsOk (padTo [1] m.length) := padTo_ok _ _ (DigitsOk.cons (by decide) DigitsOk.nil)
   have vone : val (padTo [1] m.length) = 1 := by rw [padTo_val]; simp [val]
   generalize padTo [1] m.length = one at *
-  have hw0 : ¬ ((4:Nat) = 0) := by decide
-  simp only [hw0, if_false]
+  have hwne : ¬ (w = 0) := by omega
+  simp only [hwne, if_false]
   obtain ⟨p0, e0, l0, d0, c0⟩ := mont_mul hctx one rr lone lrr done drr
   have r0 : Rep m p0 (X ^ 0) := by
     refine ⟨l0, d0, ?_⟩
@@ -397,10 +399,9 @@ theorem montyCore_spec (P : Params) (hP : P.window = 4) {m : List Nat} {k : Nat}
   rw [e0]; simp only []
   rw [e1]; simp only []
   have r1' : Rep m p1 (X ^ 1) := by simpa using r1
-  obtain ⟨rest, et, ht⟩ := tableLoop_spec hctx X p1 r1 14 p1 1 r1'
-  have h14 : 2 ^ 4 - 2 = 14 := by norm_num
-  rw [h14, et]; simp only []
-  have hT : Table m X (p0 :: p1 :: rest) 16 := by
+  obtain ⟨rest, et, ht⟩ := tableLoop_spec hctx X p1 r1 (2 ^ w - 2) p1 1 r1'
+  rw [et]; simp only []
+  have hT : Table m X (p0 :: p1 :: rest) (2 ^ w) := by
     intro i hi
     match i with
     | 0 => exact ⟨p0, rfl, r0⟩
@@ -412,7 +413,7 @@ theorem montyCore_spec (P : Params) (hP : P.window = 4) {m : List Nat} {k : Nat}
       rw [this] at hr; exact hr
   have hrs : resize p0 m.length = p0 := by rw [← l0]; exact resize_self p0
   rw [hrs]
-  obtain ⟨z, ez, rz⟩ := digitLoop_spec hctx X (p0 :: p1 :: rest) hT y.length y.reverse p0 0
+  obtain ⟨z, ez, rz⟩ := digitLoop_spec hctx X (p0 :: p1 :: rest) w hw0 hwd hT y.length y.reverse p0 0
     (by intro d hd; exact hy d (List.mem_reverse.mp hd)) (by simp) (fun _ => rfl) r0
   rw [ez]; simp only []
   rw [List.reverse_reverse, Nat.zero_mul, Nat.zero_add] at rz
@@ -466,7 +467,8 @@ theorem montyRRD_spec (P : Params) (m : List Nat) (n : Nat) (hm : Canon m) (hm0 
   rw [hv, Nat.one_mul, remRef_spec P _ _ (ofNat_canon _) hm, if_neg hm0, ofNat_val]
 
 /-- `monty_modpow(x, y, m)` with digit-level operators, odd canonical modulus: canonical digits of `x^y mod m` -/
-theorem montyModpowD_spec (P : Params) (hP : P.window = 4) (x y m : List Nat) (m0 : Nat) (mt : List Nat)
+theorem montyModpowD_spec (P : Params) (hw0 : 0 < P.window) (hwd : P.window ∣ 64)
+    (hsq : P.squarings = P.window) (x y m : List Nat) (m0 : Nat) (mt : List Nat)
     (hm : m = m0 :: mt) (hodd : m0 % 2 = 1) (hx : Canon x) (hy : DigitsOk y) (hmc : Canon m)
     (hsz : 2 * m.length * BITS < C07.U64_RANGE) :
     montyModpowD P x y m = .ok (ofNat (val x ^ val y % val m)) := by
@@ -511,7 +513,7 @@ theorem montyModpowD_spec (P : Params) (hP : P.window = 4) (x y m : List Nat) (m
     have : 2 ^ (2 * m.length * BITS) = B ^ m.length * B ^ m.length := by
       rw [B_eq, ← pow_mul, ← pow_add, BITS_eq]; congr 1; ring
     rw [this]; exact Nat.mod_modEq _ _
-  obtain ⟨zz, ezz, _, dzz, czz⟩ := montyCore_spec P hP hctx x2 rr y (val x) lx2 dx2 (by rw [vx2]; exact cx1)
+  obtain ⟨zz, ezz, _, dzz, czz⟩ := montyCore_spec P hw0 hwd hsq hctx x2 rr y (val x) lx2 dx2 (by rw [vx2]; exact cx1)
     lrr drr crr hy
   rw [ezz]; simp only []
   rw [montyFinalD_spec P zz m dzz hmc hm0]
